@@ -147,10 +147,13 @@ func (s *ftpService) Handle(ctx context.Context, conn net.Conn) error {
 		}
 	}()
 
-	ftpConn.Serve()
+	// also when a command handler panics
+	defer func() {
+		close(recv)
+		<-done
+	}()
 
-	close(recv)
-	<-done
+	ftpConn.Serve()
 
 	return nil
 }
